@@ -84,9 +84,14 @@ def gen_cases(tier, seed):
                 if v is not None:
                     kw[f] = v
             if rng.random() < 0.3:
-                kw['birthday'] = rng.choice(['1970-01-01', '2024-02-29', {'$date': [1999, 12, 31]}, '1970-01-01\n', '1970-01-01\r\nX-EVIL:1', '1970-01-01T10:11:12Z\n'])
+                kw['birthday'] = rng.choice(['1970-01-01', '2024-02-29', {'$date': [1999, 12, 31]}, '1970-01-01\n', '1970-01-01\r\nX-EVIL:1', '1970-01-01T10:11:12Z\n',
+                                             # a line break (or other white space) *inside* an otherwise complete date-time
+                                             '1976-09-19\n10:11:12', '1976-09-19\r10:11:12', '1976-09-19\n10:11:12Z', '1976-09-19 10:11:12',
+                                             '1976-09-19\x0b10:11:12', '1976-09-19\u202810:11:12', '1976-09-19T10:11:12\n+02:00',
+                                             '1976-09\n-19', '1976-09-19T10:11\n:12', '1976-09-19T10:11:12'])
             if rng.random() < 0.2:
-                kw['rev'] = rng.choice(['2020-05-05', '2020-05-05T10:11:12Z', {'$date': [2001, 1, 1]}, '2020-05-05\n'])
+                kw['rev'] = rng.choice(['2020-05-05', '2020-05-05T10:11:12Z', {'$date': [2001, 1, 1]}, '2020-05-05\n', '2020-05-05\n10:11:12',
+                                        '2020-05-05\r\n10:11:12Z', '2020-05-05 10:11:12'])
             if rng.random() < 0.3:
                 kw['lat'], kw['lng'] = round(rng.uniform(-90, 90), rng.randint(0, 8)), round(rng.uniform(-180, 180), rng.randint(0, 8))
         elif h == 'geo':
